@@ -36,6 +36,7 @@ Proof.
   destruct (find_spec lower world n) as [p|]; [|inversion E; reflexivity].
   destruct imp as [|[q|q|]]; try (inversion E; reflexivity).
   unfold load_plugin_class in E. destruct initf; [inversion E; reflexivity|].
+  cbn [s_cbs s_next s_unimp] in E.
   set (c := mk_cb (s_next s) p) in *.
   assert (Hnd : NoDup (ids (s_cbs s ++ [c]))) by (apply (wf_nd_snoc lower (s_next s)); [exact Hw|reflexivity]).
   pose proof (add_callback_spec lower o Ho (s_cbs s) c Hnd) as S. cbv zeta in S.
@@ -83,6 +84,16 @@ Lemma cyclic_load_refuted :
   let '(s', r) := owner_load lower_ascii w_cyc s nAlpha 0 false id_oracle in
   load_dom lower_ascii w_cyc s nAlpha = false /\ r = Raise AssertionError /\
   map cname (s_cbs s') = [nOwner; nMisc; nAlpha].
+Proof. vm_compute. repeat split. Qed.
+
+(* reload after a reload that failed with ImportError (and restored the plugin): the module was
+   popped from sys.modules, so even a now-correct plugin is lost with KeyError (finding F24) *)
+Definition ops_reload2 : list op :=
+  [Boot nOwner id_oracle; Load nAlpha 0 false id_oracle; Reload nAlpha 1 false false id_oracle].
+Lemma reload_after_importerror_refuted :
+  let s := steps lower_ascii w_reload st0 ops_reload2 in
+  let '(s', r) := owner_reload lower_ascii w_reload s nAlpha 0 false false id_oracle in
+  map cname (s_cbs s) = [nOwner; nAlpha] /\ r = Raise KeyError /\ map cname (s_cbs s') = [nOwner].
 Proof. vm_compute. repeat split. Qed.
 
 (* non-vacuity of load_dom / accepted loads *)
